@@ -20,8 +20,13 @@ fn record(heap: usize, f: impl FnOnce()) -> Vec<Value> {
     ev::LOG.clear();
     f();
     let mut out = vec![];
+    // blocks allocated during the call: not yet visible to any other thread, so operations on their counts are
+    // private steps of the calling thread (their effect is judged by the sequential replays, not by the schedule model)
+    let mut fresh: Vec<(usize, usize)> = vec![];
     for e in ev::drain() {
         match e {
+            Ev::Alloc { addr, size, .. } => fresh.push((addr, addr + size)),
+            Ev::Atomic { cell, op, .. } if op != 6 && cell != heap && fresh.iter().any(|r| r.0 <= cell && cell < r.1) => {}
             Ev::Atomic { cell, op, operand, order, seen, .. } => {
                 if cell != heap && op != 6 {
                     out.push(json!(["foreign", 0, "-", 0]));
